@@ -32,8 +32,14 @@ func zzC12Sched() {
 	for i := 0; i < NC; i++ {
 		r := &zzCallRec{done: make(chan struct{})}
 		recs[i] = r
-		d := vInt64("delay")
-		vAssume(d >= -8 && d <= zzMaxD2)
+		var d int64
+		if vParam("BURST") == 1 && i < NC-1 {
+			// a burst of futures that are due at once (it brings up the helper workers), then one symbolic delay
+			d = 0
+		} else {
+			d = vInt64("delay")
+			vAssume(d >= -8 && d <= zzMaxD2)
+		}
 		if vParam("NEVER") == 1 && vChoose("never", 2) == 1 {
 			d = 1<<63 - 1 // the usual "never" idiom: time.Duration(math.MaxInt64)
 			r.never = true
